@@ -945,7 +945,7 @@ mod api {
                 a
             }));
             match r {
-                Err(_) => o.fail(json!({"clause": "C10 damaged user file never stops the keyboard (panic)", "history": hist})),
+                Err(_) => o.fail(json!({"clause": "C01 C10 damaged user file never stops the keyboard (panic)", "history": hist})),
                 Ok(a) => {
                     let readable = serde_json::from_slice::<std::collections::HashMap<String, String>>(&content).is_ok();
                     if !readable && a != reference { o.fail(json!({"clause": "C10 unreadable content is treated as if the file were absent", "history": hist, "observed": a, "expected": reference})); }
@@ -972,7 +972,7 @@ mod api {
                 (s.history(), want)
             }));
             match r {
-                Err(_) => { let _ = std::fs::remove_file(&dir); o.fail(json!({"clause": "C10 an unusable user-data directory never stops the keyboard (panic)", "history": {"config": cfgv, "events": "commit with the user-data directory replaced by a plain file, then restored"}})); }
+                Err(_) => { let _ = std::fs::remove_file(&dir); o.fail(json!({"clause": "C01 C10 an unusable user-data directory never stops the keyboard (panic)", "history": {"config": cfgv, "events": "commit with the user-data directory replaced by a plain file, then restored"}})); }
                 Ok((hist, Some(want))) => {
                     let mut fresh = Sess::new(cfgv.clone());
                     let a = fresh.typ("kotha").unwrap(); fresh.finish();
@@ -999,7 +999,7 @@ mod api {
                 s.ctx.update_engine(&cfg);
                 for t in ["zzqe", "zzq", "zzxe", "e"] { let sg = s.typ(t).unwrap(); if !sg.is_lonely() && sg.len() > 1 { s.commit(1); } else { s.finish(); } }
             }));
-            if r.is_err() { o.fail(json!({"clause": "C10 user auto-correct entries with empty strings (loaded by update_engine) never stop the keyboard (panic)", "history": {"config": cfgv, "events": "type zzqe; write autocorrect.json; update_engine; type zzqe, zzq, zzxe, e with commits", "autocorrect.json": doc}})); }
+            if r.is_err() { o.fail(json!({"clause": "C01 C10 user auto-correct entries with empty strings (loaded by update_engine) never stop the keyboard (panic)", "history": {"config": cfgv, "events": "type zzqe; write autocorrect.json; update_engine; type zzqe, zzq, zzxe, e with commits", "autocorrect.json": doc}})); }
         }
         // the user auto-correct list damaged / removed / replaced by a non-ASCII entry while a word is being composed; the
         // configuration is re-loaded inside the composition and a candidate other than the preselected one is committed
@@ -1035,7 +1035,7 @@ mod api {
             let sg = s.typ("sesh").unwrap(); if !sg.is_lonely() && sg.len() > 1 { s.commit(1); }
             let _ = s.typ("sesh");
         }));
-        if r.is_err() { o.fail(json!({"clause": "C10 missing user-data directory never stops the keyboard (panic)", "history": {"config": cfgv, "events": "remove user dir; type sesh; commit 1; type sesh"}})); }
+        if r.is_err() { o.fail(json!({"clause": "C01 C10 missing user-data directory never stops the keyboard (panic)", "history": {"config": cfgv, "events": "remove user dir; type sesh; commit 1; type sesh"}})); }
         crate::verif_driver::reset_user_files();
         o.sample(json!({"file": "phonetic-candidate-selection.json", "prefix_len": 7}));
         o.done()
@@ -1492,6 +1492,26 @@ mod api {
         let mut idx = 0usize;
         let cfgv = phon_cfg(json!({}));
         let typeable = |s: &str| s.chars().all(|c| c.is_ascii_graphic() && crate::verif_driver::has_key(c));
+        // EVERY typeable emoticon (both tiers), in one long-lived context per English setting: no candidate text occurs twice (C07),
+        // the emoji is offered and the literal text stays available (C18)
+        if shard == 0 {
+            for eng in [false, true] {
+                let mut s = Sess::new(phon_cfg(json!({"include_english": eng})));
+                for e in tables["emoticons"].as_array().cloned().unwrap_or_default() {
+                    let e = e.as_str().unwrap().to_string();
+                    if !typeable(&e) { continue; }
+                    let emoji = match data.get_emoji_by_emoticon(&e) { Some(x) => x.to_string(), None => continue };
+                    o.cases += 1;
+                    let sg = s.typ(&e).unwrap(); s.finish();
+                    let list = texts(&sg);
+                    for i in 0..list.len() { for j in 0..i { if list[i] == list[j] {
+                        o.fail(json!({"clause": "C07 no candidate text occurs twice (emoticon typed)", "emoticon": e, "history": {"config": s.cfgv, "events": [{"type": e}]}, "observed": list}));
+                    } } }
+                    if !list.contains(&emoji) || !list.contains(&e) { o.fail(json!({"clause": "C18 emoticon offers its emoji and keeps the literal text", "emoticon": e, "history": {"config": s.cfgv, "events": [{"type": e}]}, "observed": list, "expected": emoji})); }
+                    o.nontrivial += 1;
+                }
+            }
+        }
         for e in tables["emoticons"].as_array().cloned().unwrap_or_default() {
             let e = e.as_str().unwrap().to_string();
             idx += 1;
